@@ -247,6 +247,13 @@ fn run_suite<S: ShortGroupSignatureScheme + 'static>(em: &mut Emitter, base: &mu
                 *get_mut(&mut v, &pok_path).unwrap() = json!({"a_bar": g1_hex_c(&abar), "b_bar": g1_hex_c(&bbar), "t": g1_hex_c(&t), "proof": resp.iter().map(sc_hex).collect::<Vec<_>>()});
                 attack_json(em, suite, &format!("overlong-forgery extra={}", extra), &world, &v, true);
             }
+            {
+                let mut v = bv.clone();
+                for f in ["a_bar", "b_bar"] {
+                    get_mut(&mut v, &pok_path).unwrap()[f] = json!(g1_hex_c(&G1Projective::IDENTITY));
+                }
+                attack_json(em, suite, "identity-element a_bar+b_bar", &world, &v, true);
+            }
             for f in ["a_bar", "b_bar", "t"] {
                 let mut v = bv.clone();
                 get_mut(&mut v, &pok_path).unwrap()[f] = json!(g1_hex_c(&G1Projective::IDENTITY));
@@ -270,6 +277,14 @@ fn run_suite<S: ShortGroupSignatureScheme + 'static>(em: &mut Emitter, base: &mu
                 let mut v = bv.clone();
                 get_mut(&mut v, &pok_path).unwrap()[f] = json!(g1_hex_c(&G1Projective::IDENTITY));
                 attack_json(em, suite, &format!("identity-element {}", f), &world, &v, true);
+            }
+            {
+                // both points at infinity: the pairing equation holds for every key and every message vector
+                let mut v = bv.clone();
+                for f in ["sigma_1", "sigma_2"] {
+                    get_mut(&mut v, &pok_path).unwrap()[f] = json!(g1_hex_c(&G1Projective::IDENTITY));
+                }
+                attack_json(em, suite, "identity-element sigma_1+sigma_2", &world, &v, true);
             }
             let mut v = bv.clone();
             get_mut(&mut v, &pok_path).unwrap()["commitment"] = json!(g2_hex_c(&G2Projective::IDENTITY));
